@@ -29,6 +29,18 @@ def short(x, n=300):
     return s if len(s) <= n else s[:n] + "…"
 
 
+def diffshow(a, b, ctx=40):
+    """The first differing region of two strings, for violation messages."""
+    if not isinstance(a, str) or not isinstance(b, str):
+        return f"{short(a, 120)} vs {short(b, 120)}"
+    i = 0
+    n = min(len(a), len(b))
+    while i < n and a[i] == b[i]:
+        i += 1
+    lo = max(0, i - ctx // 2)
+    return f"…{a[lo:i + ctx]!r} vs …{b[lo:i + ctx]!r} (first difference at char {i})"
+
+
 class MachineryError(Exception):
     pass
 
@@ -114,7 +126,7 @@ class Run:
             "exhaustive": bool(self.exhaustive),
             "counters": self.counters,
             "known_findings_seen": [k for k, _ in listed],
-            "new_violation_keys": [k for k, _ in new][:50],
+            "new_violation_keys": [k for k, _ in new][:400],
         }
         if coverage_extra:
             cov.update(coverage_extra)
@@ -135,14 +147,15 @@ class Run:
         code = 0
         if new:
             os.makedirs(os.path.join(REPLAY_DIR, self.prop), exist_ok=True)
-            for key, v in new[:25]:
+            for i, (key, v) in enumerate(new[:400]):
                 h = hashlib.sha1(key.encode("utf-8")).hexdigest()[:12]
                 path = os.path.join(REPLAY_DIR, self.prop, h + ".json")
                 with open(path, "w", encoding="utf-8") as f:
                     json.dump({"property": self.prop, "key": key, "what": v["what"], "count": v["count"],
                                "replay": v["replay"]}, f, ensure_ascii=False, indent=1)
-                print(f"VIOLATION property={self.prop} replay={path}")
-                print(f"   key={key}  ({v['count']} case(s))  {short(v['what'], 400)}")
+                if i < 25:
+                    print(f"VIOLATION property={self.prop} replay={path}")
+                    print(f"   key={key}  ({v['count']} case(s))  {short(v['what'], 400)}")
             if len(new) > 25:
                 print(f"   … and {len(new) - 25} more distinct violation keys")
             code = 1
